@@ -89,7 +89,9 @@ class BMPWriter:
 
     def write_line(self, y: int, data: bytes) -> None:
         self.fp.seek(self.pos1 - (y + 1) * self.linesize)
-        self.fp.write(data)
+        # Every row is padded to a multiple of four bytes, the last one in the
+        # file too: otherwise the file is shorter than its header declares.
+        self.fp.write(data.ljust(self.linesize, b"\x00"))
 
 
 class ImageWriter:
